@@ -1,0 +1,80 @@
+//go:build verif
+
+// Re-exports for the external verification harness (/verif, property C17: key-correctness proofs).
+// Compiled only with the build tag verif. Names only: no behaviour of its own.
+package keyproof
+
+// Iteration counts and limits the soundness argument of the package rests on.
+const (
+	VerifSquareFreeIters                 = squareFreeIters
+	VerifPrimePowerProductIters          = primePowerProductIters
+	VerifDisjointPrimeProductIters       = disjointPrimeProductIters
+	VerifAlmostSafePrimeProductIters     = almostSafePrimeProductIters
+	VerifAlmostSafePrimeProductNonceSize = almostSafePrimeProductNonceSize
+	VerifMinimumFactor                   = minimumFactor
+	VerifRangeProofIters                 = rangeProofIters
+	VerifRangeProofEpsilon               = rangeProofEpsilon
+)
+
+type (
+	VerifAlmostSafePrimeProductCommit = almostSafePrimeProductCommit
+	VerifQuasiSafePrimeProductCommit  = quasiSafePrimeProductCommit
+
+	VerifExpStepStructure    = expStepStructure
+	VerifExpStepCommit       = expStepCommit
+	VerifExpStepAStructure   = expStepAStructure
+	VerifExpStepBStructure   = expStepBStructure
+	VerifRangeProofStructure = rangeProofStructure
+	VerifRangeCommit         = rangeCommit
+	VerifPrimeProofStructure = primeProofStructure
+)
+
+// The component proofs of Gennaro et al. (build / structure check / verification).
+var (
+	VerifSquareFreeBuildProof      = squareFreeBuildProof
+	VerifSquareFreeVerifyStructure = squareFreeVerifyStructure
+	VerifSquareFreeVerifyProof     = squareFreeVerifyProof
+
+	VerifPrimePowerProductBuildProof      = primePowerProductBuildProof
+	VerifPrimePowerProductVerifyStructure = primePowerProductVerifyStructure
+	VerifPrimePowerProductVerifyProof     = primePowerProductVerifyProof
+
+	VerifDisjointPrimeProductBuildProof      = disjointPrimeProductBuildProof
+	VerifDisjointPrimeProductVerifyStructure = disjointPrimeProductVerifyStructure
+	VerifDisjointPrimeProductVerifyProof     = disjointPrimeProductVerifyProof
+
+	VerifAlmostSafePrimeProductBuildCommitments   = almostSafePrimeProductBuildCommitments
+	VerifAlmostSafePrimeProductBuildProof         = almostSafePrimeProductBuildProof
+	VerifAlmostSafePrimeProductVerifyStructure    = almostSafePrimeProductVerifyStructure
+	VerifAlmostSafePrimeProductExtractCommitments = almostSafePrimeProductExtractCommitments
+	VerifAlmostSafePrimeProductVerifyProof        = almostSafePrimeProductVerifyProof
+
+	VerifQuasiSafePrimeProductBuildCommitments   = quasiSafePrimeProductBuildCommitments
+	VerifQuasiSafePrimeProductBuildProof         = quasiSafePrimeProductBuildProof
+	VerifQuasiSafePrimeProductVerifyStructure    = quasiSafePrimeProductVerifyStructure
+	VerifQuasiSafePrimeProductExtractCommitments = quasiSafePrimeProductExtractCommitments
+	VerifQuasiSafePrimeProductVerifyProof        = quasiSafePrimeProductVerifyProof
+)
+
+// The OR composition (expStep = expStepA OR expStepB) and the range proof, as method expressions.
+var (
+	VerifNewExpStepStructure           = newExpStepStructure
+	VerifExpStepCommitmentsFromSecrets = (*expStepStructure).commitmentsFromSecrets
+	VerifExpStepBuildProof             = (*expStepStructure).buildProof
+	VerifExpStepVerifyProofStructure   = (*expStepStructure).verifyProofStructure
+	VerifExpStepCommitmentsFromProof   = (*expStepStructure).commitmentsFromProof
+	VerifNewExpStepAStructure          = newExpStepAStructure
+	VerifExpStepAFakeProof             = (*expStepAStructure).fakeProof
+	VerifNewExpStepBStructure          = newExpStepBStructure
+	VerifExpStepBFakeProof             = (*expStepBStructure).fakeProof
+
+	VerifNewPedersenRangeProofStructure   = newPedersenRangeProofStructure
+	VerifRangeProofCommitmentsFromSecrets = (*rangeProofStructure).commitmentsFromSecrets
+	VerifRangeProofBuildProof             = (*rangeProofStructure).buildProof
+	VerifRangeProofVerifyProofStructure   = (*rangeProofStructure).verifyProofStructure
+	VerifRangeProofCommitmentsFromProof   = (*rangeProofStructure).commitmentsFromProof
+
+	// structure check of the prime proof (carries the XOR rule of its OR node)
+	VerifNewPrimeProofStructure         = newPrimeProofStructure
+	VerifPrimeProofVerifyProofStructure = (*primeProofStructure).verifyProofStructure
+)
